@@ -19,6 +19,7 @@ import (
 	"io"
 	"log"
 	"math/rand"
+	"net"
 	"os"
 	"os/exec"
 	"path/filepath"
@@ -26,7 +27,9 @@ import (
 	"sort"
 	"strconv"
 	"strings"
+	"sync/atomic"
 	"time"
+	"unsafe"
 )
 
 type callable struct {
@@ -235,6 +238,51 @@ func dumpVals(vs []reflect.Value) string {
 	}
 	return d.b.String()
 }
+
+// fakeConn: a net.Conn that serves scripted bytes (optionally a few at a time) and records what is written
+type fakeConn struct {
+	In     []byte
+	Pos    int
+	Chunk  int
+	Out    []byte
+	Closed bool
+}
+
+type fakeAddr struct{}
+
+func (fakeAddr) Network() string { return "fake" }
+func (fakeAddr) String() string  { return "fake" }
+
+func (c *fakeConn) Read(p []byte) (int, error) {
+	if c.Closed {
+		return 0, io.ErrClosedPipe
+	}
+	if c.Pos >= len(c.In) {
+		return 0, io.EOF
+	}
+	n := len(p)
+	if c.Chunk > 0 && n > c.Chunk {
+		n = c.Chunk
+	}
+	n = copy(p[:n], c.In[c.Pos:])
+	c.Pos += n
+	return n, nil
+}
+func (c *fakeConn) Write(p []byte) (int, error) {
+	if c.Closed {
+		return 0, io.ErrClosedPipe
+	}
+	c.Out = append(c.Out, p...)
+	return len(p), nil
+}
+func (c *fakeConn) Close() error                       { c.Closed = true; return nil }
+func (c *fakeConn) LocalAddr() net.Addr                { return fakeAddr{} }
+func (c *fakeConn) RemoteAddr() net.Addr               { return fakeAddr{} }
+func (c *fakeConn) SetDeadline(t time.Time) error      { return nil }
+func (c *fakeConn) SetReadDeadline(t time.Time) error  { return nil }
+func (c *fakeConn) SetWriteDeadline(t time.Time) error { return nil }
+
+var connType = reflect.TypeOf((*net.Conn)(nil)).Elem()
 
 // ---------------------------------------------------------------------------------------------- generation
 
@@ -576,6 +624,15 @@ func (w *world) gen(t reflect.Type, r *rand.Rand, depth int) (v reflect.Value, o
 		mode := r.Intn(4) // 0: zero value, else fill exported fields
 		for i := 0; i < t.NumField(); i++ {
 			f := t.Field(i)
+			if f.PkgPath != "" && f.Type == connType && v.Field(i).CanAddr() && r.Intn(10) < 8 {
+				// a transport object without a connection can do nothing: give it a scripted one
+				fc := &fakeConn{In: genBytes(r, w)}
+				if r.Intn(3) == 0 {
+					fc.Chunk = 1 + r.Intn(7)
+				}
+				reflect.NewAt(f.Type, unsafe.Pointer(v.Field(i).UnsafeAddr())).Elem().Set(reflect.ValueOf(fc))
+				continue
+			}
 			if f.PkgPath != "" || mode == 0 {
 				continue
 			}
@@ -600,6 +657,8 @@ func (w *world) gen(t reflect.Type, r *rand.Rand, depth int) (v reflect.Value, o
 			v.Set(reflect.ValueOf(bytes.NewReader(genBytes(r, w))))
 		case t == writerType:
 			v.Set(reflect.ValueOf(&bytes.Buffer{}))
+		case t == connType:
+			v.Set(reflect.ValueOf(&fakeConn{In: genBytes(r, w)}))
 		case t.String() == "cipher.Block":
 			key := make([]byte, []int{16, 24, 32}[r.Intn(3)])
 			for i := range key {
@@ -711,9 +770,14 @@ func (w *world) poolDump() []string {
 
 var inflight *os.File
 
+var callStarted atomic.Int64 // unix nanoseconds of the call in flight, 0 when none
+
 func noteInflight(seq int64, step, widx int, name string) {
 	if inflight == nil {
 		return
+	}
+	if seq >= 0 {
+		callStarted.Store(time.Now().UnixNano())
 	}
 	s := fmt.Sprintf("%d %d %d %s\n", seq, step, widx, name)
 	b := make([]byte, 160)
@@ -743,6 +807,7 @@ type stepOut struct {
 	pool    []string
 	ok      bool
 	rvals   []reflect.Value
+	written [][]byte // what the call wrote to fake connections held by its arguments
 }
 
 var active, focusActive []*callable
@@ -824,6 +889,7 @@ func (w *world) step(seq int64, stepNo int, r *rand.Rand) (c *callable, o stepOu
 		o.desc = fmt.Sprintf("pool[%d].%s(%s)", pi, mn, clip(dumpVals(args)))
 		noteInflight(seq, stepNo, w.idx, c.Name)
 		res, panicked := safeCall(m, args)
+		callStarted.Store(0)
 		if panicked {
 			o.results = "PANIC"
 		} else {
@@ -854,6 +920,7 @@ func (w *world) step(seq int64, stepNo int, r *rand.Rand) (c *callable, o stepOu
 		o.desc = c.Name + "(" + clip(dumpVals(args)) + ")"
 		noteInflight(seq, stepNo, w.idx, c.Name)
 		res, panicked := safeCall(fn, args)
+		callStarted.Store(0)
 		if panicked {
 			o.results = "PANIC"
 		} else {
@@ -861,6 +928,7 @@ func (w *world) step(seq int64, stepNo int, r *rand.Rand) (c *callable, o stepOu
 			o.rvals = res
 		}
 		o.after = w.dumpAfter(args)
+		o.written = connOutputs(args)
 		o.ok = true
 	}
 	o.pool = w.poolDump()
@@ -930,6 +998,25 @@ func (w *world) dumpAfter(args []reflect.Value) string {
 		}
 	}
 	return s
+}
+
+func connOutputs(args []reflect.Value) [][]byte {
+	var out [][]byte
+	for _, a := range args {
+		if a.Kind() == reflect.Ptr && !a.IsNil() && a.Elem().Kind() == reflect.Struct {
+			sv := a.Elem()
+			for i := 0; i < sv.NumField(); i++ {
+				f := sv.Field(i)
+				if f.Kind() == reflect.Interface && !f.IsNil() && f.Elem().Type() == reflect.TypeOf(&fakeConn{}) {
+					fc := (*fakeConn)(unsafe.Pointer(f.Elem().Pointer()))
+					if len(fc.Out) > 0 {
+						out = append(out, append([]byte{}, fc.Out...))
+					}
+				}
+			}
+		}
+	}
+	return out
 }
 
 func clip(s string) string {
@@ -1019,6 +1106,9 @@ func runSeq(seed, seq int64, maxSteps int) (*difference, bool) {
 			for _, rv := range outs[i].rvals {
 				w.add(rv)
 			}
+			for _, b := range outs[i].written {
+				w.add(reflect.ValueOf(b))
+			}
 			if len(w.pool) > 40 {
 				w.pool = w.pool[len(w.pool)-40:]
 			}
@@ -1101,6 +1191,16 @@ func worker(seed int64, shard, shards int, seconds int, outdir string, only int6
 	os.Stdout, os.Stderr = devnull, devnull
 	log.SetOutput(io.Discard)
 	setup()
+	go func() {
+		// a call that has not returned after 5 s: leave (the supervisor reads the in-flight record, puts the callable
+		// on the skip list and starts a fresh worker)
+		for {
+			time.Sleep(500 * time.Millisecond)
+			if t := callStarted.Load(); t != 0 && time.Now().UnixNano()-t > 5e9 {
+				os.Exit(3)
+			}
+		}
+	}()
 	if b, err := os.ReadFile(filepath.Join(outdir, "skip.txt")); err == nil {
 		for _, n := range strings.Fields(string(b)) {
 			for _, c := range callables {
@@ -1267,11 +1367,12 @@ func main() {
 				crashes++
 				seq, step, widx, name := readInflight(i)
 				kind := "crash"
-				if hung {
+				if ee, ok := err.(*exec.ExitError); hung || (ok && ee.ExitCode() == 3) {
 					kind = "hang"
 				}
 				ev := map[string]interface{}{"kind": kind, "seq": seq, "step": step, "world": widx, "callable": name, "shard": i}
-				if widx >= 1 && seq >= 0 {
+				if widx == 1 && seq >= 0 {
+					// (a crash in the third world is not counted: it shares the package-level state of the second)
 					// the baseline returned from this call and the current code did not: confirm on a fresh process
 					w2 := launch(i, 0, seq, 60)
 					var err2 error
@@ -1283,7 +1384,7 @@ func main() {
 						err2 = fmt.Errorf("hang")
 					}
 					s2, _, widx2, name2 := readInflight(i)
-					if err2 != nil && s2 == seq && widx2 >= 1 && name2 == name {
+					if err2 != nil && s2 == seq && widx2 == 1 && name2 == name {
 						ev["confirmed"] = true
 					}
 				}
